@@ -36,7 +36,7 @@ type seqCase struct {
 	Warm []byte `json:"warm,omitempty"`
 }
 
-var classNames = []string{"valid", "short", "long", "other-serial", "serial-0", "wrong-code", "wrong-id", "id-0x19", "malformed", "malformed-strict"}
+var classNames = []string{"valid", "short", "long", "other-serial", "serial-0", "wrong-code", "wrong-id", "id-0x19", "malformed", "malformed-strict", "two-faults"}
 
 // classify is the oracle's own view of a datagram (independent of how it was generated).
 func classify(d []byte, c spec.Call) string {
@@ -379,6 +379,19 @@ func mkDatagram(t *rapid.T, class string, c spec.Call) []byte {
 		d[0] = 0x19
 		if l.Code == 0x20 {
 			d[1] = 0x21 // for the status function 0x19 is legitimate: make it a 0x19 datagram of another function
+		}
+	case "two-faults":
+		// two deviations in the header at once - in particular S's serial number under a foreign but well-known header: a
+		// status / event message (0x19 or 0x17 with function 0x20), a discovery reply (0x94), another operation's reply
+		d[1] = rapid.SampledFrom([]byte{0x20, 0x20, 0x94, 0x92, 0x5a, 0xb0, 0x00, 0xff}).Draw(t, "other.code")
+		if d[1] == l.Code {
+			d[1] ^= 0x02
+		}
+		d[0] = rapid.SampledFrom([]byte{0x19, 0x19, 0x17, 0x18, 0x00}).Draw(t, "other.id")
+		if rapid.Bool().Draw(t, "other.body") {
+			// with the body of a real message of that kind
+			body := gen.Payload(t, spec.EventLayout, d[0], c.Serial, 0, false)
+			copy(d[8:], body[8:])
 		}
 	case "malformed":
 		d = gen.Payload(t, l, som, c.Serial, 1, false)
